@@ -107,6 +107,28 @@ def audit_round(ctx, run, k, s, interp, pfm, csv_path):
                                       "%s round %d: reported %s drawn from %s in month %d is %r percent of needs, the optimiser allocated %r" % (
                                           run.iso, k + 1, use, attr, bad, float(ip[bad]) if ip.shape == mp.shape else None, float(mp[bad])), dict(case, food=attr, use=use, month=bad))
                     ctx.count("nonhuman-series-compared")
+            # the reported totals are the sums of the reported parts: feed, biofuel (kcals-equivalent units) and both together (percent of needs);
+            # in a human-maximising round the model's theorem nonhuman_sum_eq_charge then makes them the round's charge
+            tot_model = {"feed": np.array([sum(nh[m][0:5]) for m in range(n)]), "biofuels": np.array([sum(nh[m][5:10]) for m in range(n)])}
+            for use in ("feed", "biofuels"):
+                rep = getattr(r, "%s_sum_kcals_equivalent" % use, None)
+                if rep is None or s.kind != "to_humans":   # the feed round's two totals are deliberately lowered by 20 kcals afterwards (run_round_2)
+                    continue
+                ip = np.asarray(rep.kcals, dtype=float)
+                mp = tot_model[use] / 100.0 * kd
+                if ip.shape != mp.shape or not np.allclose(mp, ip, rtol=1e-9, atol=1e-9 * max(1.0, float(np.max(np.abs(mp))))):
+                    bad = int(np.argmax(np.abs(mp - ip))) if ip.shape == mp.shape else 0
+                    ctx.violation("reported-total-not-allocation:%s_sum" % use, "%s round %d: the reported %s total in month %d is %r kcals per person per day, the optimiser allocated %r" % (
+                        run.iso, k + 1, use, bad, float(ip[bad]) if ip.shape == mp.shape else None, float(mp[bad])), dict(case, use=use, month=bad))
+            both = getattr(r, "feed_and_biofuels_sum", None)
+            if both is not None:
+                ip = np.asarray(both.kcals, dtype=float)
+                mp = tot_model["feed"] + tot_model["biofuels"]
+                if ip.shape != mp.shape or not np.allclose(mp, ip, rtol=1e-9, atol=1e-9 * max(1.0, float(np.max(np.abs(mp))))):
+                    bad = int(np.argmax(np.abs(mp - ip))) if ip.shape == mp.shape else 0
+                    ctx.violation("reported-total-not-allocation:feed_and_biofuels_sum", "%s round %d: reported feed + biofuel in month %d is %r percent of needs, the optimiser "
+                                  "allocated %r" % (run.iso, k + 1, bad, float(ip[bad]) if ip.shape == mp.shape else None, float(mp[bad])), dict(case, month=bad))
+            ctx.count("nonhuman-totals-compared")
     # 2. headline = min over months of the sum of the contributions (unrounded: from the kcals-equivalent series, exact units)
     keq_sum = sum(np.asarray(getattr(r, nm).kcals, dtype=float) for nm in keq_names.values()) \
         + np.asarray(r.immediate_outdoor_crops_kcals_equivalent.kcals, dtype=float) \
